@@ -192,11 +192,21 @@ func replaceUses(old, nu ssa.Value) {
 	*r = nil
 }
 
+// flatten: thin private wrappers of the reference tree between a handler and the primitive it calls. They are expanded
+// too, so that the rules see the same code whether such a wrapper exists, was merged into its caller, or was split
+// further: the rules about them are written against the flattened handler.
+var flatten = map[string]bool{
+	"(*airgapped.Machine).encryptDataForParticipant":  true,
+	"(*airgapped.Machine).decryptDataFromParticipant": true,
+	"(*airgapped.Machine).createPartialSign":          true,
+	"pkg/wc_rotation.computeForkDataRoot":             true,
+}
+
 func inlinable(h *ssa.Function, baseline map[string]bool) bool {
 	if h == nil || len(h.Blocks) == 0 || (h.Synthetic != "" && !strings.HasPrefix(h.Synthetic, "instance of")) || !InModule(h) || h.Recover != nil || (h.TypeParams().Len() > 0 && len(h.TypeArgs()) == 0) {
 		return false
 	}
-	if baseline[FuncName(h)] {
+	if baseline[FuncName(h)] && !flatten[FuncName(h)] {
 		return false
 	}
 	if h.Pkg != nil && (strings.Contains(h.Pkg.Pkg.Path(), "/mocks/") || strings.HasSuffix(h.Pkg.Pkg.Path(), "_test")) {
